@@ -242,9 +242,97 @@ def job_jacobian(ctx: Ctx):
                 ctx.eq(f"degenerate point (r ~ 0 or phi ~ 0): angular columns are dropped, radial column kept (component {i})", J[i][0], M[i][0], q.pc, replay=rp, key=key + ":degenerate")
 
 
+def complex_Y(l, m, polar, azim):
+    """complex spherical harmonic Y_l^m with Condon-Shortley phase (the documented definition of scipy.special.sph_harm_y), built
+    independently from the associated-Legendre recurrence on (cos, sin) of the polar angle"""
+    from symgrid.angles import SymComplex
+    if abs(m) > l:
+        return SymComplex(K(0), K(0))
+    ma = abs(m)
+    x, sn = polar.c, polar.s
+    pmm = K(1)
+    for k in range(1, ma + 1):
+        pmm = pmm * (-(2 * k - 1)) * sn
+    if l == ma:
+        plm = pmm
+    else:
+        pm1 = x * (2 * ma + 1) * pmm
+        if l == ma + 1:
+            plm = pm1
+        else:
+            a_, b_ = pmm, pm1
+            for ll in range(ma + 2, l + 1):
+                a_, b_ = b_, (x * (2 * ll - 1) * b_ - (ll + ma - 1) * a_) / (ll - ma)
+            plm = b_
+    norm = (K(Fraction((2 * l + 1) * math.factorial(l - ma), math.factorial(l + ma))) / (4 * PI)).sqrt()
+    e = azim._mult(ma)
+    val = SymComplex(norm * plm * e.c, norm * plm * e.s)
+    if m < 0:       # Y_l^{-m} = (-1)^m conj(Y_l^m)
+        val = SymComplex(val.re, -val.im) * ((-1) ** ma)
+    return val
+
+
+def install_scipy_stubs(ut):
+    def sph_harm_y(l, m, polar, azim):
+        return arr([complex_Y(int(l), int(m), polar[k], azim[k]) for k in range(len(polar))])
+
+    def sph_harm_y_all(lmax, mmax, polar, azim):
+        out = np.empty((lmax + 1, 2 * mmax + 1, len(polar)), dtype=object)
+        for l in range(lmax + 1):
+            for mi in range(2 * mmax + 1):
+                m = mi if mi <= mmax else mi - (2 * mmax + 1)
+                for k in range(len(polar)):
+                    out[l, mi, k] = complex_Y(l, m, polar[k], azim[k])
+        return out
+    ut.sph_harm_y, ut.sph_harm_y_all = sph_harm_y, sph_harm_y_all
+
+
+def job_derivative(ctx: Ctx, lmax):
+    ut = _mod()
+    npproxy.install(ut)
+    install_scipy_stubs(ut)
+    e = ctx.engine
+    sym.Engine.cur = e
+    ctx.encoded(ut.generate_derivative_real_spherical_harmonics, ut.generate_real_spherical_harmonics_scipy)
+    t, p = Ang.free("t", e), Ang.free("p", e)
+    e.assume(p.s > K(Fraction(1, 100)))       # away from the poles
+    key = "derivative_real_spherical_harmonics"
+    ctx.bounds.update(dict(l_max=lmax, angles="arbitrary azimuth, polar angle away from the poles (sin phi > 0.01)"))
+    rows = horton_pure_rows(lmax)
+
+    def rp(m):
+        with unpatched(ut):
+            import importlib
+            ut2 = importlib.reload(importlib.import_module("grid.utils"))
+            th, ph = ang_value(m, "t", 0.7), ang_value(m, "p", 1.1)
+            ph = abs(ph)
+            D = np.asarray(ut2.generate_derivative_real_spherical_harmonics(lmax, np.array([th]), np.array([ph])), float)[:, :, 0]
+            h = 1e-6
+            f = lambda a, b: float_Y(ut2, lmax, a, b)
+            dth = (f(th + h, ph) - f(th - h, ph)) / (2 * h)
+            dph = (f(th, ph + h) - f(th, ph - h)) / (2 * h)
+            Ys, Yr = np.asarray(ut2.generate_real_spherical_harmonics_scipy(lmax, np.array([th]), np.array([ph])), float)[:, 0], f(th, ph)
+            bad = not np.allclose(D[0], dth, atol=1e-6) or not np.allclose(D[1], dph, atol=1e-6) or not np.allclose(Ys, Yr, atol=1e-10)
+            install_scipy_stubs(ut)
+            return bad, dict(theta=th, phi=ph, d_theta=D[0].tolist(), finite_difference_theta=dth.tolist(), d_phi=D[1].tolist(), finite_difference_phi=dph.tolist())
+    for q in e.run(lambda: (ut.generate_real_spherical_harmonics(lmax, arr([t]), arr([p])), ut.generate_derivative_real_spherical_harmonics(lmax, arr([t]), arr([p])),
+                            ut.generate_real_spherical_harmonics_scipy(lmax, arr([t]), arr([p])))):
+        ctx.paths += 1
+        if q.exc is not None:
+            ctx.fail("harmonics routines evaluate", f"{type(q.exc).__name__}: {str(q.exc)[:200]}", key=key, replay=rp, model=ctx.model_for(q.pc) or {})
+            continue
+        if ctx.twin(q.pc) == "unsat":
+            continue
+        Y, D, Ysp = q.result
+        for k, (l, mm, kind) in enumerate(rows):
+            ctx.eq(f"row {k} (l={l}, m={mm}{kind}): SciPy-based implementation == recursion", Ysp[k, 0], Y[k, 0], q.pc, replay=rp, key="real_spherical_harmonics_scipy")
+            ctx.eq(f"row {k}: d/dtheta routine == dY/dtheta", D[0, k, 0], d_angle(Y[k, 0], t), q.pc, replay=rp, key=key + ":theta")
+            ctx.eq(f"row {k}: d/dphi routine == dY/dphi (away from the poles)", D[1, k, 0], d_angle(Y[k, 0], p), q.pc, assume=[p.s > 0], replay=rp, key=key + ":phi")
+
+
 def jobs(tier):
     js = [Job(f"harmonics/lmax={6 if tier == 'quick' else 12}", job_harmonics, 6 if tier == "quick" else 12), Job("solid", job_solid, 6 if tier == "quick" else 10),
-          Job("cart_to_sph/centre", job_cart_to_sph, True), Job("cart_to_sph/origin", job_cart_to_sph, False), Job("jacobian", job_jacobian)]
+          Job(f"derivative+scipy/lmax={3 if tier == 'quick' else 6}", job_derivative, 3 if tier == "quick" else 6), Job("cart_to_sph/centre", job_cart_to_sph, True), Job("cart_to_sph/origin", job_cart_to_sph, False), Job("jacobian", job_jacobian)]
     only = os.environ.get("SYMGRID_ONLY")
     return [j for j in js if not only or only in j.name]
 
@@ -255,9 +343,9 @@ def main():
     return harness.finish(
         PROP, res, t0, "DESIGN.md#c08",
         bounds=dict(l_max="6 (quick) / 12 (thorough)", angles="arbitrary (unit-circle pairs), both poles explicitly", conversion="symbolic point and centre, all branches (generic, z-axis, at the centre)"),
-        outside=["generate_real_spherical_harmonics_scipy and generate_derivative_real_spherical_harmonics (SciPy's compiled Y_l^m and complex exponentials are not modelled): 'both implementations agree' and "
-                 "'the derivative routine is the true derivative' are not claimed", "high degrees (numerical range of the recursion, e.g. overflow beyond l ~ 150)", "IEEE rounding at the poles (tan(pi) != 0 in floating point)"],
-        assumptions=["angles are points of the unit circle; trigonometric identities reduce by sin^2 -> 1 - cos^2 in the normaliser", "regular solid harmonics l <= 3 re-typed in Cartesian form as the independent definition"])
+        outside=["SciPy's compiled Y_l^m itself: generate_real_spherical_harmonics_scipy and generate_derivative_real_spherical_harmonics are executed with sph_harm_y / sph_harm_y_all replaced by the documented "
+                 "definition (Condon-Shortley phase), l_max <= 3 (quick) / 6; the pole convention of the derivative routine (exact tan(phi) = 0) is forked but its floating-point mask is not modelled", "high degrees (numerical range of the recursion, e.g. overflow beyond l ~ 150)", "IEEE rounding at the poles (tan(pi) != 0 in floating point)"],
+        assumptions=["stub contract: scipy.special.sph_harm_y(l, m, polar, azimuth) = sqrt((2l+1)/(4pi) (l-m)!/(l+m)!) P_l^m(cos polar) exp(i m azimuth) with Condon-Shortley phase", "angles are points of the unit circle; trigonometric identities reduce by sin^2 -> 1 - cos^2 in the normaliser", "regular solid harmonics l <= 3 re-typed in Cartesian form as the independent definition"])
 
 
 if __name__ == "__main__":
